@@ -261,3 +261,11 @@ Definition fserr_code (e : fserr) : option N :=
   | FsUnexpectedEnd => Some unexpected_end_code
   | FsQuic _ => None
   end.
+
+(* the other site: ConnectionInner::poll_control (control stream) *)
+Definition fserr_code_ctl (e : fserr) : option N :=
+  match e with
+  | FsProto k _ => if ctl_proto_via_table then perr_code k else None
+  | FsUnexpectedEnd => Some ctl_unexpected_end_code
+  | FsQuic _ => None
+  end.
